@@ -152,6 +152,10 @@ pub fn run(out: &mut Out, seed: u64, thorough: bool) {
             around(&mut sents, plen as isize - 4096, 2);
             sents.push(rng.range(0, plen.max(1)));
         }
+        if plen > 65535 {
+            // hand-made contexts close to the 16-bit limit of the cursor
+            sents.extend([61441, 61442, 65000, 65534, 65535]);
+        }
         for sent in dedup(sents) {
             if sent > 65535 {
                 continue;
